@@ -41,6 +41,8 @@ struct TbbCfg {
     int split_pm = 550;      // per-mille probability that a divisible node is bisected
     int steal_pm = 500;      // per-mille probability that an offered right half is stolen
     int max_leaves = 24;     // per region
+    int steal_max_size = 0;  // swarm knob: if > 0 only right halves of at most this many elements are stolen
+                             // (deep, small steals followed by a long continuation on the joined accumulator)
     int yield_pm = 300;
 };
 struct RegionRec { size_t limit; int W; };
@@ -80,9 +82,10 @@ struct RegionScope {
     }
 };
 
-inline bool may_steal(int W) {
+inline bool may_steal(int W, size_t right_size = 0) {
     ProcCtx *p = cur_proc();
     IgnoreGuard ig;
+    if (tbbcfg.steal_max_size > 0 && right_size > (size_t) tbbcfg.steal_max_size) return false;
     return W > 1 && p->active_strands < W;
 }
 inline void strand_delta(int d) {
@@ -183,7 +186,7 @@ void for_exec(ForCtx<Range, Body> &c, Range &range) {
     sim::Sched &s = sim::Sched::get();
     if (range.is_divisible() && sim::want_split(c.leaves)) {
         Range right(range, split());
-        if (sim::may_steal(c.W) && sim::flip(sim::T_STEAL, sim::tbbcfg.steal_pm)) {
+        if (sim::may_steal(c.W, (size_t) right.size()) && sim::flip(sim::T_STEAL, sim::tbbcfg.steal_pm)) {
             { sim::IgnoreGuard ig; sim::tbbstats.steals++; }
             ForStrand<Range, Body> st { &c, &right, nullptr };
             sim::strand_delta(+1);
@@ -274,7 +277,7 @@ void red_exec(RedCtx<Range, Value, Body, Red> &c, Range &range, Value &acc) {
     sim::Sched &s = sim::Sched::get();
     if (range.is_divisible() && sim::want_split(c.leaves)) {
         Range right(range, split());
-        if (sim::may_steal(c.W) && sim::flip(sim::T_STEAL, sim::tbbcfg.steal_pm)) {
+        if (sim::may_steal(c.W, (size_t) right.size()) && sim::flip(sim::T_STEAL, sim::tbbcfg.steal_pm)) {
             { sim::IgnoreGuard ig; sim::tbbstats.steals++; c.runs++; }
             RedStrand<Range, Value, Body, Red> st; st.c = &c; st.range = &right; st.constructed = false;
             sim::strand_delta(+1);
@@ -387,14 +390,14 @@ template<class C, class F> void parallel_for_each(C &c, const F &f) { parallel_f
 class global_control {
 public:
     enum parameter { max_allowed_parallelism, thread_stack_size, terminate_on_exception, scheduler_handle, parameter_max };
-    global_control(parameter p, size_t value) : my_param(p), my_value(value), my_proc(sim::cur_proc()) {
+    global_control(parameter p, size_t value) : my_param(p), my_value(value), my_proc(sim::cur_proc()), my_uid(sim::cur_proc()->uid) {
         if (p == max_allowed_parallelism) { sim::IgnoreGuard ig; my_proc->gc_parallelism.insert(value < 1 ? 1 : value); }
     }
     ~global_control() {
         if (my_param == max_allowed_parallelism) {
             sim::IgnoreGuard ig;
             // the simulated process this control was created in may be gone (a static that outlived its run)
-            if (my_proc != &sim::default_proc && !sim::live_procs().count(my_proc)) return;
+            if (my_proc != &sim::default_proc && (!sim::live_procs().count(my_proc) || my_proc->uid != my_uid)) return;
             auto it = my_proc->gc_parallelism.find(my_value < 1 ? 1 : my_value);
             if (it != my_proc->gc_parallelism.end()) my_proc->gc_parallelism.erase(it);
         }
@@ -407,7 +410,7 @@ public:
 private:
     global_control(const global_control&);
     global_control& operator=(const global_control&);
-    parameter my_param; size_t my_value; sim::ProcCtx *my_proc;
+    parameter my_param; size_t my_value; sim::ProcCtx *my_proc; uint64_t my_uid;
 };
 
 class task_arena {
